@@ -77,6 +77,11 @@ CHECKS = {
         text="C15_state_at_knot_is_result, C15_state_at_between, C15_state_at_outside_raises, C15_der_at, C15_integral_trapezoid, C15_map_path_expression hold for every problem, decision vector, member, variable with its own increasing grid and interpolation mode; the real accessors are evaluated as CasADi functions of X at a rational vector for queries on / between knots, before t0 (with and without history), after the end, windows with and without knots, and compared with the model.",
         note="Trusted: Coq kernel + vm_compute; harness. Alias names, constant inputs/parameters through state_at, windows reaching into the history and integrate_states are outside the model. No axioms. Two genuine defects repaired in /repo (6922290 state_at scaling before t0, a760dfe integral over a knot-free window).",
         ref="DESIGN.md §5 C15"),
+    "C16": dict(
+        technique="Coq proof (row characterisation, zero-delay and incomplete-history cases via the interpolation theorems) + correspondence of the Gallina delay model against the delayed-feedback rows of transcribe()",
+        text="C16_every_time_has_a_row, C16_row_spec, C16_incomplete_history_extrapolates, C16_zero_delay hold for every problem, delayed expression, delay vector and decision vector; the model (history assembly, enough-history decision incl. NaN scan, interpolation over history ++ horizon, row nominal) is compared with the delay rows of nlp g on generated models with zero / short / long / parameter-dependent delays, complete / short / partial / absent per-member histories, non-equidistant grids and nominals.",
+        note="Trusted: Coq kernel + vm_compute; harness. Delayed expressions mentioning constant inputs or time, alias receivers and the simulator's delay buffer (C09) are outside this model. No axioms. Genuine defect repaired in /repo 1a72412 (zero row nominal).",
+        ref="DESIGN.md §5 C16"),
 }
 
 PENDING_REASON = "check not built yet (work in progress; see DESIGN.md §7 build order) — not claimed until its Coq model, theorems and correspondence check run clean on the unchanged tree"
